@@ -143,7 +143,14 @@ def oracles_C13(ctx, hints):
             bs = [s for s in same if s[3] is not None]
             final = []
             if bs and cg.can_unpack:
-                final = [cg.unpack_op(ctx.rng.choice(bs)[3])]
+                fb = ctx.rng.choice(bs)[3]
+                if ctx.rng.random() < 0.35:
+                    # the property speaks of any buffer: also mutants of valid packets (reserved values,
+                    # boundary bytes) — kept only if a new object accepts them
+                    ms = gen.malformed(ctx.rng, fb, cg.length_fields, max_trunc=4)
+                    if ms:
+                        fb = ctx.rng.choice(ms)
+                final = [cg.unpack_op(fb)]
             args = {"cls": cg.cls, "opts": list(opts), "ops": ops, "final": final}
             n += 1
             w = check_history_independence(args)
@@ -239,6 +246,9 @@ def check_eq_decode(args):
         return None
     b = bytes.fromhex(out[-1][4:])
     ob = a.ctor(*po)
+    if args.get("prior"):
+        # decode into an object that was used before (it decoded another packet of the same class first)
+        guarded(lambda: a.unpack(ob, bytes.fromhex(args["prior"]), *[pyval(parse_val(x)) for x in cg.unpack_args]))
     st = guarded(lambda: a.unpack(ob, b, *[pyval(parse_val(x)) for x in cg.unpack_args]))
     if st[0] != "ok":
         return None          # decode failures are C01..C06's business
@@ -246,7 +256,8 @@ def check_eq_decode(args):
     if st[0] != "ok":
         return "%s: comparing an object with its decoded encoding raised (%s)" % (cls, st[1])
     if not st[1]:
-        return "%s: the object decoded from a's encoding does not compare equal to a" % cls
+        return "%s: the object decoded from a's encoding%s does not compare equal to a" % (
+            cls, " (into an object that had decoded another packet before)" if args.get("prior") else "")
     return None
 
 def check_eq_foreign(args):
@@ -297,6 +308,17 @@ def oracles_C14(ctx, hints):
                 if w:
                     done.add("dec")
                     fails.append(Failure("eq_decode", args, w, {"class": cg.cls, "check": "eq_decode"}))
+                else:
+                    # the same into a used object: one that decoded another valid packet of the class first
+                    g = cg.valid(ctx.rng)
+                    pb = _valid_bytes(cg, opts, gen.sets(g))
+                    if pb is not None:
+                        args2 = dict(args, prior=pb.hex())
+                        n += 1
+                        w = check_eq_decode(args2)
+                        if w and check_eq_decode(args) is None:
+                            done.add("dec")
+                            fails.append(Failure("eq_decode", args2, w, {"class": cg.cls, "check": "eq_decode", "into": "used_object"}))
             if "for" not in done:
                 w = check_eq_foreign(args)
                 if w:
